@@ -867,9 +867,9 @@ Section PureEnvs.
       destruct (is_err av); inversion H; subst; auto.
     - apply andb_prop in HC. destruct HC as [C1 C2].
       destruct (peval fd k env e1) as [o1 out1] eqn:E1. destruct o1 as [v1| |]; try discriminate.
-      destruct (is_err v1); [inversion H; subst; eapply IH; eauto|].
+      destruct (is_err v1); [inversion H; subst; exact (IH _ _ _ _ HE C1 E1)|].
       destruct (peval fd k env e2) as [o2 out2] eqn:E2. destruct o2 as [v2| |]; try discriminate.
-      destruct (is_err v2); [inversion H; subst; eapply IH; eauto|].
+      destruct (is_err v2); [inversion H; subst; exact (IH _ _ _ _ HE C2 E2)|].
       inversion H; subst. eapply bin_op_envs0; eauto.
     - apply andb_prop in HC. destruct HC as [HC C3]. apply andb_prop in HC. destruct HC as [C1 C2].
       destruct (peval fd k env e1) as [o1 out1] eqn:E1. destruct o1 as [v1| |]; try discriminate.
@@ -878,8 +878,8 @@ Section PureEnvs.
       inversion H; subst. eapply IH; [eauto | | exact E2]. destruct b; auto.
     - apply andb_prop in HC. destruct HC as [C1 C2].
       destruct (peval fd k env e1) as [o1 out1] eqn:E1. destruct o1 as [v1| |]; try discriminate.
-      destruct (is_err v1) eqn:EV; [inversion H; subst; eapply IH; eauto|].
-      destruct (peval fd k env e2) as [o2 out2] eqn:E2. inversion H; subst. eapply IH; eauto.
+      destruct (is_err v1) eqn:EV; [inversion H; subst; exact (IH _ _ _ _ HE C1 E1)|].
+      destruct (peval fd k env e2) as [o2 out2] eqn:E2. inversion H; subst. exact (IH _ _ _ _ HE C2 E2).
     - rewrite closed_all_forallb in HC.
       destruct (peval_list (peval fd k) env es) as [[oc vals] out1] eqn:EL.
       destruct (IHL _ _ _ _ _ HE HC EL) as [A B].
@@ -889,3 +889,168 @@ Section PureEnvs.
     - inversion H; subst; auto.
   Qed.
 End PureEnvs.
+
+Lemma set_heap_same0 : forall st, set_heap st (st_heap st) = st.
+Proof. destruct st; auto. Qed.
+
+(* ================================================================ the two runs in lockstep at the root *)
+Section Root.
+  Variable defs : list fdef.
+  Hypothesis Hclosed : closed_hist defs = true.
+
+  Definition store_ok (s : list (ident * cell)) : Prop :=
+    Forall (fun p => exists v, snd p = CVal v /\ envs0 v = true) s.
+  Definition is_root (root : frame) : Prop :=
+    fr_outer root = None /\ fr_fn root = None /\ store_ok (fr_store root).
+  Definition rootrel (s1 s0 : state) : Prop :=
+    exists root, nth_error (st_heap s1) 0 = Some root /\ nth_error (st_heap s0) 0 = Some root /\ is_root root /\
+                 cache_ok defs (st_cache s1) /\ cache_ok defs (st_cache s0).
+
+  Lemma find_store_ok : forall s x c, store_ok s -> find_cell s x = Some c -> exists v, c = CVal v /\ envs0 v = true.
+  Proof.
+    induction s as [|[y c0] s IH]; simpl; intros x c H F; try discriminate. inversion H; subst.
+    destruct (bytes_eqb y x); [inversion F; subst; auto | eauto].
+  Qed.
+  Lemma put_store_ok : forall s x v, store_ok s -> envs0 v = true -> store_ok (put_cell s x (CVal v)).
+  Proof.
+    induction s as [|[y c0] s IH]; simpl; intros x v H E.
+    - repeat constructor. simpl. eauto.
+    - inversion H; subst. destruct (bytes_eqb y x); constructor; simpl; eauto. apply IH; auto.
+  Qed.
+  Lemma remove_store_ok : forall s x, store_ok s -> store_ok (remove_cell s x).
+  Proof.
+    induction s as [|[y c0] s IH]; simpl; intros x H; auto. inversion H; subst.
+    destruct (bytes_eqb y x); auto. constructor; auto. apply IH; auto.
+  Qed.
+
+  Lemma heap0 : forall (h : heap) root, nth_error h 0 = Some root -> exists rest, h = root :: rest.
+  Proof. intros [|a h] root H; simpl in H; inversion H; eauto. Qed.
+
+  (* Get at the root only looks at the root frame *)
+  Definition root_get (root : frame) (x : ident) : option (option value) :=   (* None = stuck *)
+    if bytes_eqb x info_name then None
+    else if bytes_eqb x self_name then Some None
+    else match find_cell (fr_store root) x with Some (CVal v) => Some (Some v) | _ => Some None end.
+  Lemma get_root : forall h root x, nth_error h 0 = Some root -> is_root root ->
+    get defs h 0 x = match root_get root x with
+                     | None => GStuck | Some None => GNotFound | Some (Some v) => GFound v false h 0 [] end.
+  Proof.
+    intros h root x H [O [F S]]. unfold get, root_get. rewrite H.
+    destruct (bytes_eqb x info_name); auto. rewrite F. destruct (bytes_eqb x self_name); auto.
+    unfold own_name. rewrite F.
+    destruct (find_cell (fr_store root) x) as [c|] eqn:FC.
+    - destruct (find_store_ok _ _ _ S FC) as [v [-> _]]. auto.
+    - rewrite O. auto.
+  Qed.
+  Lemma root_get_envs0 : forall root x v, is_root root -> root_get root x = Some (Some v) -> envs0 v = true.
+  Proof.
+    intros root x v [_ [_ S]] H. unfold root_get in H.
+    destruct (bytes_eqb x info_name); try discriminate. destruct (bytes_eqb x self_name); try discriminate.
+    destruct (find_cell (fr_store root) x) as [c|] eqn:FC; try discriminate.
+    destruct (find_store_ok _ _ _ S FC) as [w [-> E]]. inversion H; subst. auto.
+  Qed.
+
+  Definition root_put (root : frame) (x : ident) (v : value) : frame := with_store root (put_cell (fr_store root) x (CVal v)).
+  Lemma set_root : forall st root x v, nth_error (st_heap st) 0 = Some root -> is_root root ->
+    set_nochecks st 0 x v = (val_res v, set_heap st (set_cell (st_heap st) 0 x (CVal v))).
+  Proof.
+    intros st root x v H [O [F S]]. unfold set_nochecks. rewrite H.
+    destruct (find_cell (fr_store root) x) as [c|] eqn:FC.
+    - destruct (find_store_ok _ _ _ S FC) as [w [-> _]]. auto.
+    - rewrite O. auto.
+  Qed.
+  Lemma set_cell0 : forall h root x c, nth_error h 0 = Some root ->
+    nth_error (set_cell h 0 x c) 0 = Some (with_store root (put_cell (fr_store root) x c)).
+  Proof. intros h root x c H. destruct (heap0 _ _ H) as [rest ->]. reflexivity. Qed.
+  Lemma root_put_ok : forall root x v, is_root root -> envs0 v = true -> is_root (root_put root x v).
+  Proof. intros root x v [O [F S]] E. unfold root_put, is_root. simpl. repeat split; auto using put_store_ok. Qed.
+
+  (* both runs perform the same root update *)
+  Lemma rootrel_put : forall s1 s0 x v, rootrel s1 s0 -> envs0 v = true ->
+    rootrel (set_heap s1 (set_cell (st_heap s1) 0 x (CVal v))) (set_heap s0 (set_cell (st_heap s0) 0 x (CVal v))).
+  Proof.
+    intros s1 s0 x v [root [A [B [C [D E]]]]] HV. exists (root_put root x v).
+    split; [apply set_cell0; auto|]. split; [apply set_cell0; auto|]. split; [apply root_put_ok; auto|]. simpl. auto.
+  Qed.
+
+  Lemma assign_root : forall s1 s0 x v r1 s1' r0 s0', rootrel s1 s0 -> envs0 v = true ->
+    assign defs s1 0 x v = (r1, s1') -> assign defs s0 0 x v = (r0, s0') ->
+    r1 = r0 /\ rootrel s1' s0' /\ r_ref r1 = false /\ (forall w, r_oc r1 = OVal w -> envs0 w = true).
+  Proof.
+    intros s1 s0 x v r1 s1' r0 s0' R HV A1 A0. pose proof R as [root [H1 [H0 [IR [C1 C0]]]]].
+    unfold assign in *.
+    assert (SET : forall r1 s1' r0 s0', set_nochecks s1 0 x v = (r1, s1') -> set_nochecks s0 0 x v = (r0, s0') ->
+                  r1 = r0 /\ rootrel s1' s0' /\ r_ref r1 = false /\ (forall w, r_oc r1 = OVal w -> envs0 w = true)).
+    { intros a b c d E1 E0. rewrite (set_root _ _ _ _ H1 IR) in E1. rewrite (set_root _ _ _ _ H0 IR) in E0.
+      inversion E1; inversion E0; subst. repeat split; auto using rootrel_put. simpl. intros w W. inversion W; subst; auto. }
+    destruct (constant_name x); [|eapply SET; eauto].
+    rewrite (get_root _ _ _ H1 IR) in A1. rewrite (get_root _ _ _ H0 IR) in A0.
+    destruct (root_get root x) as [[old|]|] eqn:G.
+    - simpl in A1, A0. rewrite !set_heap_same0 in *.
+      destruct (negb (value_goeq old v)).
+      + inversion A1; inversion A0; subst. repeat split; auto. simpl. intros w W. inversion W; subst; auto.
+      + destruct (set_nochecks s1 0 x v) as [a b] eqn:E1. destruct (set_nochecks s0 0 x v) as [c d] eqn:E0.
+        destruct (SET _ _ _ _ eq_refl eq_refl) as [Q1 [Q2 [Q3 Q4]]]. inversion A1; inversion A0; subst.
+        repeat split; auto.
+    - eapply SET; eauto.
+    - inversion A1; inversion A0; subst. repeat split; auto. simpl. intros w W. discriminate.
+  Qed.
+
+  Definition same_res (r1 r0 : res) : Prop :=
+    r_oc r1 = r_oc r0 /\ r_out r1 = r_out r0 /\ r_log r1 = r_log r0 /\ r_ref r1 = false /\ r_ref r0 = false /\
+    (forall v, r_oc r1 = OVal v -> envs0 v = true).
+  Definition sim_spec (f : nat) : Prop :=
+    forall e s1 s0 r1 s1' r0 s0', rootrel s1 s0 -> lits_ok e = true ->
+      eval f true defs s1 0 e = (r1, s1') -> eval f false defs s0 0 e = (r0, s0') ->
+      r_oc r1 <> OFuel -> r_oc r0 <> OFuel -> same_res r1 r0 /\ rootrel s1' s0'.
+
+  Lemma rootrel_ext : forall s1 s0 t1 t0, rootrel s1 s0 ->
+    (exists x, st_heap t1 = st_heap s1 ++ x) -> (exists y, st_heap t0 = st_heap s0 ++ y) ->
+    cache_ok defs (st_cache t1) -> cache_ok defs (st_cache t0) -> rootrel t1 t0.
+  Proof.
+    intros s1 s0 t1 t0 [root [A [B [C _]]]] [x X] [y Y] K1 K0. exists root. rewrite X, Y.
+    repeat split; auto using nth_error_app_some; apply C.
+  Qed.
+
+  Lemma call_pure_det : forall fd k1 k0 vals o1 out1 o0 out0,
+    call_pure fd k1 vals = (o1, out1) -> call_pure fd k0 vals = (o0, out0) -> o1 <> OFuel -> o0 <> OFuel ->
+    o1 = o0 /\ out1 = out0.
+  Proof.
+    unfold call_pure. intros fd k1 k0 vals o1 out1 o0 out0 A B N1 N0.
+    destruct (negb (length vals =? length (fd_params fd))).
+    - inversion A; inversion B; subst; auto.
+    - eapply peval_det; eauto.
+  Qed.
+
+  Lemma apply_root : forall f fv args s1 s0 r1 s1' r0 s0',
+    rootrel s1 s0 -> envs0 fv = true -> forallb (fun p => negb (snd p)) args = true -> forallb envs0 (map fst args) = true ->
+    apply_fn (eval f true defs) true defs s1 0 fv args = (r1, s1') ->
+    apply_fn (eval f false defs) false defs s0 0 fv args = (r0, s0') ->
+    r_oc r1 <> OFuel -> r_oc r0 <> OFuel -> same_res r1 r0 /\ rootrel s1' s0'.
+  Proof.
+    intros f fv args s1 s0 r1 s1' r0 s0' R HV HR HA A1 A0 N1 N0.
+    pose proof R as [root [H1 [H0 [IR [C1 C0]]]]].
+    destruct fv; try (unfold apply_fn in A1, A0; inversion A1; inversion A0; subst;
+                      split; [repeat split; auto; simpl; intros w W; inversion W; subst; auto | auto]; fail).
+    simpl in HV. apply Nat.eqb_eq in HV. subst env.
+    destruct (nth_error defs d) as [fd|] eqn:Hd.
+    2:{ unfold apply_fn in A1, A0. rewrite Hd in A1, A0. inversion A1; inversion A0; subst.
+        split; [repeat split; auto; simpl; intros w W; discriminate | auto]. }
+    assert (P1 : exists pf, nth_error (st_heap s1) (if bytes_eqb (fr_key root) (fd_key fd) then 0 else 0) = Some pf)
+      by (destruct (bytes_eqb (fr_key root) (fd_key fd)); eauto).
+    assert (P0 : exists pf, nth_error (st_heap s0) (if bytes_eqb (fr_key root) (fd_key fd) then 0 else 0) = Some pf)
+      by (destruct (bytes_eqb (fr_key root) (fd_key fd)); eauto).
+    destruct (apply_closed defs Hclosed f (closed_all defs Hclosed f) true d fd s1 0 root 0 args r1 s1' Hd H1 P1 HR C1 A1)
+      as [F|[[k1 Q1] [R1 [L1 [M1 [X1 K1]]]]]]; [congruence|].
+    destruct (apply_closed defs Hclosed f (closed_all defs Hclosed f) false d fd s0 0 root 0 args r0 s0' Hd H0 P0 HR C0 A0)
+      as [F|[[k0 Q0] [R0 [L0 [M0 [X0 K0]]]]]]; [congruence|].
+    destruct (call_pure_det _ _ _ _ _ _ _ _ Q1 Q0 N1 N0) as [EO EOUT].
+    split; [|eapply rootrel_ext; eauto].
+    repeat split; auto; try congruence.
+    intros w W. rewrite W in Q1. unfold call_pure in Q1.
+    destruct (negb (length (map fst args) =? length (fd_params fd))).
+    - inversion Q1; subst; auto.
+    - pose proof (all_closed defs Hclosed _ _ Hd) as CF. destruct (closed_fn_parts_pure fd CF) as [_ [_ CB]].
+      eapply (peval_envs0 fd CF); [apply env_ok_combine; eauto | exact CB | exact Q1].
+  Qed.
+End Root.
